@@ -989,8 +989,34 @@ func (c *Ctx) redirectorMode(fn *ssa.Function, name string, kind string) []strin
 				}
 				return
 			}
-			// any other value: fine unless computed from the client's value
-			if HasOrigin(c.rawOrigins(v), func(o Origin) bool { return o.V == ssa.Value(src) }) {
+			// any other value: fine unless computed from the client's value — also
+			// through library calls (parsed as a URL, its query read, unescaped)
+			var derived func(x ssa.Value, dd int) bool
+			dseen := map[ssa.Value]bool{}
+			derived = func(x ssa.Value, dd int) bool {
+				if x == nil || dd > 10 || dseen[x] {
+					return false
+				}
+				dseen[x] = true
+				if x == ssa.Value(src) {
+					return true
+				}
+				in, isIn := x.(ssa.Instruction)
+				if !isIn {
+					return false
+				}
+				if _, isAlloc := x.(*ssa.Alloc); isAlloc {
+					return false
+				}
+				var buf [8]*ssa.Value
+				for _, op := range in.Operands(buf[:0]) {
+					if *op != nil && derived(*op, dd+1) {
+						return true
+					}
+				}
+				return false
+			}
+			if derived(v, 0) || HasOrigin(c.rawOrigins(v), func(o Origin) bool { return o.V == ssa.Value(src) }) {
 				bad = SafeString(v)
 				if call, _ := CallOf(v); call != nil {
 					bad = Callee(call)
